@@ -7,8 +7,8 @@ from harness.common import cz, cq, cnat, cbool, clist, ctup, copt, cres, call_re
 ID = "C09"
 GEN = []
 PROPS = "Props/C09.v"
-COQ_CHECK = ("Model.C09", "check")
-COQ_FALLBACK = ("Model.C09", "spec_ok")
+COQ_CHECK = ("Model.C09h", "hcheck")
+COQ_FALLBACK = ("Model.C09h", "hspec_ok")
 COQ_IMPORTS = "From PAV Require Import Base.NumOps."
 SHARD = 150
 RULE = ("(a) exhaustive: every boolean mask of every shape with H*W <= 6 (quick) / <= 8 (thorough), uniform sub-size 1, 2, 4 "
@@ -22,17 +22,33 @@ RULE = ("(a) exhaustive: every boolean mask of every shape with H*W <= 6 (quick)
         "with the threshold / absolute-tolerance decision exactly ON the boundary (f = c*y^2, pixel centres at |y| = ps/4); functions "
         "vanishing at every pixel centre are generated on purpose (known finding level0-all-zero); (c) tolerance stream "
         "(exact=false, 1e-9): sub-sizes 3,5,6,7 and pixel scales 3/2, 3, 0.1. Iterative cases whose threshold decision lies "
-        "within 1e-6 of the boundary (but not exactly on it) are skipped and counted. distinct = distinct JSON input.")
+        "within 1e-6 of the boundary (but not exactly on it) are skipped and counted. (d) HISTORIES (one run_case = one history, "
+        "replayable alone): k = 3-4 different functions (bowls K + a(y-y0)^2 + b(x-x0)^2 centred at different / mirrored positions, "
+        "a repeat of the first, a random polynomial) through ONE OverSamplerIterate, through ONE Grid2D(over_sampling=OverSamplingIterate) "
+        "(from_mask, GridsDataset, derived grids: arithmetic result / re-wrapped / native->slim) and through ONE Grid2D with "
+        "OverSamplingUniform(int | map), each result compared with the model on that function alone; ONE OverSamplerUniform with "
+        "random step lists (cached over_sampled_grid / slim_for_sub_slim / sub_mask_native_for_sub_mask_slim read repeatedly, "
+        "sub_pixel_areas, binning, functions, in-place edits sub_size[i] = s before the first cached read; int- and map-constructed, "
+        "maps built from a native 2-D array or by arithmetic); sequences of single operations in one process on fresh objects built "
+        "from RELATED inputs (same shape and pixel count with permuted / flipped mask, other origin, other scales) and on SHARED "
+        "objects (one Mask2D / sub-size map / over sampler / OverSampling* configuration object / GridsDataset / Grid2D wherever the "
+        "construction parameters coincide; one OverSampling configuration object used for several masks). After every history the "
+        "caller's inputs (mask, map, sub-values, grid values, arrays given to the util functions) must be unchanged and every earlier "
+        "result must still hold what it held when returned. (e) value ranges: functions scaled by 2^-40..2^30 (with scaled absolute "
+        "tolerances), functions vanishing at SOME pixel centres, functions whose sub-size-2 mean is exactly 0 in a row of pixels "
+        "with a positive centre value. distinct = distinct JSON input.")
 EXHAUSTIVE = {
     "quick": "all boolean masks of all shapes with H*W <= 6 (394 masks): over-sampled grid at uniform sub-size 1 and 2 (and 4 for every third mask); "
              "slim_for_sub_slim and binning of distinct integers at one of these sub-sizes per mask (rotating)",
     "thorough": "all boolean masks of all shapes with H*W <= 8 x uniform sub-size {1,2,4}",
 }
-TRUSTED = ["correspondence harness harness/c09.py (the user function is the SAME coefficient list on both sides: numpy evaluation "
+TRUSTED = ["state kept by OverSamplerIterate / OverSampling* configuration objects / GridsDataset between calls is NOT modelled (the model is the pure function): tied by the shared-object sequences only",
+           "correspondence harness harness/c09.py (the user function is the SAME coefficient list on both sides: numpy evaluation "
            "in the implementation, eval_ufun at QOps in the model)",
            "Array2D slim/native conversion modelled structurally (Model.C09.to_native / to_slim; subject of C01)",
            "numpy float64 semantics of x / 0.0 = inf in threshold_mask_via_arrays_jit_from (numba absent), modelled by an explicit branch"]
-ASSUMPTIONS = ["user functions are pointwise functions of (y, x) (func(grid)[k] = f(grid[k]))",
+ASSUMPTIONS = ["the sub-size map and the mask are not edited in place after a cached property of the over sampler has been read (cached_property by design)",
+               "user functions are pointwise functions of (y, x) (func(grid)[k] = f(grid[k]))",
                "len(sub_size) = pixels_in_mask, sub-sizes >= 1, pixel scales non-zero, rectangular mask",
                "fractional_accuracy > 0 when set (with a threshold <= 0 the code accepts pixels whose ratio is undefined)",
                "real arithmetic: floating-point rounding is not modelled; exact streams use dyadic inputs, tolerance streams 1e-9"]
@@ -143,6 +159,71 @@ def rand_poly(rng, kind=None):
     absy = kind == "abs" and rng.random() < 0.7
     absx = kind == "abs" and rng.random() < 0.7
     return {"absy": absy, "absx": absx, "terms": terms}
+def scaled(f, k):
+    """every coefficient times 2^k (exact)"""
+    return {"absy": f["absy"], "absx": f["absx"], "terms": [[i, j, fs(F(c) * F(2) ** k)] for i, j, c in f["terms"]]}
+def maybe_scaled(rng, f, p=0.15):
+    return scaled(f, rng.choice([-40, -30, -20, 20, 30])) if rng.random() < p else f
+def bowl(K, a, b, y0, x0):
+    """K + a (y - y0)^2 + b (x - x0)^2"""
+    return {"absy": False, "absx": False,
+            "terms": [[0, 0, fs(K + a * y0 * y0 + b * x0 * x0)], [1, 0, fs(-2 * a * y0)], [2, 0, fs(a)], [0, 1, fs(-2 * b * x0)], [0, 2, fs(b)]]}
+def sym_mask(rng, nmax=10):
+    """all-unmasked or 4-fold symmetric masks: mirrored functions leave the same NUMBER of unresolved pixels at mirrored positions"""
+    while True:
+        h, w = rng.randint(1, 4), rng.randint(1, 4)
+        if rng.random() < 0.5: m = [[False] * w for _ in range(h)]
+        else:
+            m = [[False] * w for _ in range(h)]
+            for y in range((h + 1) // 2):
+                for x in range((w + 1) // 2):
+                    b = rng.random() < 0.3
+                    m[y][x] = m[h - 1 - y][x] = m[y][w - 1 - x] = m[h - 1 - y][w - 1 - x] = b
+        if 2 <= len(unmasked(m)) <= nmax: return m
+def bowl_family(rng, m, ps, og, k):
+    """k functions: compact dips at different / mirrored positions, a repeat of the first, sometimes a random polynomial"""
+    psy, psx = F(ps[0]), F(ps[1]); ogy, ogx = F(og[0]), F(og[1]); H, W = len(m), len(m[0])
+    def one(ky, kx):
+        A, B = F(rng.choice([1, 1, 2, 4])), F(rng.choice([1, 1, 2, 4])); K = F(1, rng.choice([1, 2, 4, 8, 8]))
+        return bowl(K, A / (psy * psy), B / (psx * psx), ogy + F(ky, 2) * psy, ogx + F(kx, 2) * psx), (A, B, K)
+    ky, kx = rng.randint(-(H - 1), H - 1), rng.randint(-(W - 1), W - 1)          # half-pixel steps around the mask centre
+    f1, (A, B, K) = one(ky, kx)
+    def same(ky, kx): return bowl(K, A / (psy * psy), B / (psx * psx), ogy + F(ky, 2) * psy, ogx + F(kx, 2) * psx)
+    mirrors = [same(-ky, kx), same(ky, -kx), same(-ky, -kx), same(ky + 2 * rng.choice([-1, 1]), kx), same(ky, kx + 2 * rng.choice([-1, 1]))]
+    fs_ = [f1, rng.choice(mirrors)]
+    while len(fs_) < k:
+        r = rng.random()
+        if r < 0.3: fs_.append(f1)                              # the same function again
+        elif r < 0.6: fs_.append(rng.choice(mirrors))
+        elif r < 0.85: fs_.append(one(rng.randint(-(H - 1), H - 1), rng.randint(-(W - 1), W - 1))[0])
+        else: fs_.append(rand_poly(rng))
+    return fs_
+def permuted_mask(rng, m):
+    """same shape, same number of unmasked pixels, other positions"""
+    h, w = len(m), len(m[0])
+    r = rng.random()
+    if r < 0.3: return [row[::-1] for row in m]
+    if r < 0.5: return m[::-1]
+    bits = [b for row in m for b in row]; rng.shuffle(bits)
+    return [bits[y * w:(y + 1) * w] for y in range(h)]
+def partial_vanishing_poly(rng, m, ps, og):
+    """zero at the pixel centres of one or two rows (or columns) of the mask, not elsewhere (in general)"""
+    psf = (F(ps[0]), F(ps[1])); ogf = (F(og[0]), F(og[1]))
+    cs = [ref_centre(m, psf, ogf, p) for p in unmasked(m)]
+    ax = rng.choice([0, 1])
+    vals = sorted(set(c[ax] for c in cs)); rng.shuffle(vals)
+    base = [[0, 0, "1"]]
+    for a in vals[:rng.choice([1, 1, 2])]:
+        base = poly_mul(base, [[1, 0, "1"], [0, 0, fs(-a)]] if ax == 0 else [[0, 1, "1"], [0, 0, fs(-a)]])
+    other = [[0, 0, fs(F(rng.randint(1, 8), 4))], [0, 1, fs(F(rng.randint(-4, 4), 4))]] if rng.random() < 0.5 else [[0, 0, fs(F(rng.choice([-2, 1, 3]), 2))]]
+    t = poly_mul(base, other)
+    return {"absy": False, "absx": False, "terms": t} if t else None
+def level2_zero_poly(rng, m, ps, og):
+    """c (1 - 16 (y - cy)^2 / psy^2): c > 0 at the centres of one row of pixels, mean over the 2x2 sub-grid exactly 0 there"""
+    psy = F(ps[0]); psf = (psy, F(ps[1])); ogf = (F(og[0]), F(og[1]))
+    cy = ref_centre(m, psf, ogf, rng.choice(unmasked(m)))[0]
+    c = F(rng.choice([1, 2, 3]), rng.choice([1, 4])); q = 16 / (psy * psy)
+    return {"absy": False, "absx": False, "terms": [[0, 0, fs(c * (1 - q * cy * cy))], [1, 0, fs(2 * c * q * cy)], [2, 0, fs(-c * q)]]}
 def poly_mul(a, b):
     out = {}
     for i, j, c in a:
@@ -200,7 +281,7 @@ def gen_inputs(tier, rng):
                     yield {"op": "nativesub", "m": m, "ss": [2] * n, "via": "class", "int": True}
                 yield {"op": "centres", "m": m, "ps": ["2", "1/2"], "og": ["1/4", "-1/2"], "via": "from_mask" if n and mi % 2 else "util"}
     # (b) random, exact
-    nb = 2500 if big else 260
+    nb = 2500 if big else 230
     for _ in range(nb):
         m = rand_mask(rng); n = len(unmasked(m)); ps, og = rand_geo(rng)
         uniform = rng.random() < 0.3
@@ -213,31 +294,39 @@ def gen_inputs(tier, rng):
         tot = sum(s * s for s in ss)
         yield {"op": "bin", "m": m, "ss": ss, "arr": [fs(F(rng.randint(-64, 64), 8)) for _ in range(tot)], "via": via, "int": False, "fl": fl}
         yield {"op": "areas", "m": m, "ps": ps, "ss": ss, "fl": fl}
-        f = rand_poly(rng)
-        yield {"op": "viafunc", "m": m, "ps": ps, "og": og, "ss": ss, "f": f, "fl": fl, "via": rng.choice(["sampler", "sampler", "oversampled"])}
+        f = maybe_scaled(rng, rand_poly(rng))
+        yield {"op": "viafunc", "m": m, "ps": ps, "og": og, "ss": ss, "f": f, "fl": fl, "via": rng.choice(["sampler", "sampler", "oversampled"]),
+               "mder": rng.choice([None, None, "array", "grid"]), "ssder": rng.choice([None, None, "native_in", "arith"])}
         # decorator: uniform int / map / all-ones map / dataset grids
         r = rng.random()
         if r < 0.3: os = {"kind": "int", "s": rng.choice([1, 2, 4, 8])}
         elif r < 0.45: os = {"kind": "map", "ss": [1] * n}
-        else: os = {"kind": "map", "ss": ss, "fl": rng.random() < 0.4}
-        yield {"op": "decor", "m": m, "ps": ps, "og": og, "os": os, "f": rand_poly(rng),
-               "via": rng.choice(["from_mask", "from_mask", "dataset", "dataset", "dataset_nu", "dataset_pixgrid"])}
+        else: os = {"kind": "map", "ss": ss, "fl": rng.random() < 0.4, "ssder": rng.choice([None, None, None, "native_in", "arith"])}
+        yield {"op": "decor", "m": m, "ps": ps, "og": og, "os": os, "f": maybe_scaled(rng, rand_poly(rng)),
+               "via": rng.choice(["from_mask", "from_mask", "dataset", "dataset", "dataset_nu", "dataset_pixgrid",
+                                  "derived_arith", "derived_rewrap", "derived_native_slim"]),
+               "mder": rng.choice([None, None, None, "array", "grid"])}
     # dataset pixelization default (sub_size 4)
     for _ in range(40 if big else 8):
         m = rand_mask(rng, 4, 4, 8); ps, og = rand_geo(rng)
         yield {"op": "grid", "m": m, "ps": ps, "og": og, "ss": [4] * len(unmasked(m)), "via": "dataset_pix", "int": True}
     # iterative scheme
-    ni = 3000 if big else 330
+    ni = 3000 if big else 300
     for k in range(ni):
         m = rand_mask(rng, 4, 4, 10); ps, og = rand_geo(rng)
         thr, rel = rand_thr(rng); steps = rand_steps(rng)
         f = None
         r = rng.random()
-        if r < 0.15: f = vanishing_poly(rng, m, ps, og)
-        elif r < 0.25: f = {"absy": False, "absx": False, "terms": [[0, 0, "0"]]}
+        if r < 0.12: f = vanishing_poly(rng, m, ps, og)
+        elif r < 0.19: f = partial_vanishing_poly(rng, m, ps, og)
+        elif r < 0.24: f = level2_zero_poly(rng, m, ps, og); steps = rng.choice([[2, 4], [2, 4, 8], [2, 2, 4]]); thr = thr or "1/2"
+        elif r < 0.28: f = {"absy": False, "absx": False, "terms": [[0, 0, "0"]]}
         elif r < 0.35:   # positive, slowly varying: agreement is reached early
             f = {"absy": False, "absx": False, "terms": [[0, 0, fs(F(rng.randint(64, 256)))], [2, 0, fs(F(rng.randint(0, 8), 4))], [0, 2, fs(F(rng.randint(0, 8), 4))]]}
         if f is None: f = rand_poly(rng)
+        if rng.random() < 0.15:          # tiny / huge magnitudes; the absolute tolerance scales with the function
+            e = rng.choice([-40, -30, -20, 20, 30]); f = scaled(f, e)
+            if rel is not None: rel = fs(F(rel) * F(2) ** e)
         via = rng.choice(["class", "class", "decor", "dataset"])
         if via == "class": yield {"op": "iter", "m": m, "ps": ps, "og": og, "thr": thr, "rel": rel, "steps": steps, "f": f}
         else: yield {"op": "decor", "m": m, "ps": ps, "og": og, "os": {"kind": "iter", "thr": thr, "rel": rel, "steps": steps}, "f": f, "via": "from_mask" if via == "decor" else "dataset"}
@@ -263,6 +352,121 @@ def gen_inputs(tier, rng):
            "steps": [2, 4], "f": {"absy": True, "absx": False, "terms": [[2, 0, "1"], [1, 0, "-1"], [0, 0, "1/4"]]}}
     yield {"op": "iter", "m": [[False, True]], "ps": ["1", "1"], "og": ["0", "0"], "thr": "1/2", "rel": None, "steps": [],
            "f": {"absy": False, "absx": False, "terms": [[0, 0, "1"]]}}
+    # (d) HISTORIES ------------------------------------------------------------------------------------------------
+    # d1: k different functions through ONE OverSamplerIterate / ONE Grid2D(over_sampling=OverSamplingIterate): the threshold
+    #     masks of a level depend on the function (compact dips at different / mirrored positions: same NUMBER of unresolved
+    #     pixels at different positions), schedules of >= 2 sub-sizes
+    for k in range(500 if big else 70):
+        m = sym_mask(rng) if rng.random() < 0.75 else rand_mask(rng, 4, 4, 10)
+        ps, og = rand_geo(rng)
+        if rng.random() < 0.5: og = ["0", "0"]
+        thr = rng.choice(["3/4", "7/8", "15/16", "15/16", "63/64", "63/64", fs(F(0.99))])
+        rel = rng.choice([None, None, None, "1/16", "1/4"])
+        steps = rng.choice([[2, 4], [2, 4], [2, 4, 8], [2, 4, 8], [2, 2, 4], [4, 8], [2, 4, 4]])
+        fs_ = bowl_family(rng, m, ps, og, rng.choice([3, 3, 4]))
+        if rng.random() < 0.2:           # tiny / huge magnitudes; the absolute tolerance scales with the functions
+            e = rng.choice([-40, -30, -20, 20, 30]); fs_ = [scaled(f, e) for f in fs_]
+            if rel is not None: rel = fs(F(rel) * F(2) ** e)
+        r = rng.random()
+        if r < 0.4:
+            yield {"op": "seq", "share": True, "steps": [{"op": "iter", "m": m, "ps": ps, "og": og, "thr": thr, "rel": rel, "steps": steps, "f": f} for f in fs_]}
+        elif r < 0.85:
+            yield {"op": "hgrid", "m": m, "ps": ps, "og": og, "os": {"kind": "iter", "thr": thr, "rel": rel, "steps": steps}, "fs": fs_,
+                   "via": rng.choice(["from_mask", "from_mask", "dataset", "dataset_nu", "derived_arith", "derived_rewrap", "derived_native_slim"]),
+                   "one_profile": rng.random() < 0.3, "mder": rng.choice([None, None, "array", "grid"])}
+        else:      # the same grid / over sampler reached through the pool, other operations on the same mask in between
+            os = {"kind": "iter", "thr": thr, "rel": rel, "steps": steps}; n = len(unmasked(m))
+            st = []
+            for f in fs_:
+                st.append({"op": "decor", "m": m, "ps": ps, "og": og, "os": os, "f": f, "via": "from_mask"})
+                if rng.random() < 0.5: st.append({"op": "grid", "m": m, "ps": ps, "og": og, "ss": [2] * n, "via": "class", "int": True})
+                if rng.random() < 0.3: st.append({"op": "iter", "m": m, "ps": ps, "og": og, "thr": thr, "rel": rel, "steps": steps, "f": f})
+            yield {"op": "seq", "share": True, "steps": st}
+    # d2: ONE OverSamplerUniform: cached reads, binning, functions; in-place edits of the map before the first cached read
+    for k in range(300 if big else 40):
+        m = rand_mask(rng, 4, 4, 8); n = len(unmasked(m)); ps, og = rand_geo(rng)
+        as_int = rng.random() < 0.25
+        ss = [rng.choice([1, 2, 4])] * n if as_int else [rng.choice([1, 1, 2, 2, 4, 8]) for _ in range(n)]
+        cur = list(ss); st = []
+        def binstep():
+            return {"do": "bin", "arr": [fs(F(rng.randint(-64, 64), 8)) for _ in range(sum(s * s for s in cur))]}
+        for _ in range(rng.choice([0, 1, 1, 2, 2, 3])):       # nothing cached yet: read -> in-place edit -> re-read
+            what = rng.choice(["areas", "areas", "bin", "both"])
+            def reads():
+                if what in ("areas", "both"): st.append({"do": "areas"})
+                if what in ("bin", "both"): st.append(binstep())
+            if rng.random() < 0.8: reads()
+            for _e in range(rng.choice([1, 1, 2])):
+                i = rng.randrange(n); s = rng.choice([x for x in (1, 2, 4) if x != cur[i]]); cur[i] = s; st.append({"do": "edit", "i": i, "s": s})
+            reads()
+        for _ in range(rng.choice([3, 4, 5, 6])):
+            r = rng.random()
+            if r < 0.2: st.append({"do": "grid"})
+            elif r < 0.55: st.append({"do": "via", "f": maybe_scaled(rng, rand_poly(rng)), "via": rng.choice(["sampler", "sampler", "oversampled"]), "obj": rng.choice([None, 1])})
+            elif r < 0.65: st.append({"do": "slim"})
+            elif r < 0.75: st.append({"do": "native"})
+            elif r < 0.85: st.append({"do": "areas"})
+            else: st.append(binstep())
+        yield {"op": "hsampler", "m": m, "ps": ps, "og": og, "ss": ss, "int": as_int, "fl": (not as_int) and rng.random() < 0.3,
+               "ssder": None if as_int else rng.choice([None, None, "native_in", "arith"]), "steps": st,
+               "mder": rng.choice([None, None, "array", "grid"])}
+    # d3: ONE Grid2D with OverSamplingUniform(int | map): k decorated calls
+    for k in range(300 if big else 40):
+        m = rand_mask(rng, 4, 4, 8); n = len(unmasked(m)); ps, og = rand_geo(rng)
+        r = rng.random()
+        if r < 0.3: os = {"kind": "int", "s": rng.choice([1, 2, 4, 8])}
+        elif r < 0.4: os = {"kind": "map", "ss": [1] * n}
+        else: os = {"kind": "map", "ss": [rng.choice([1, 1, 2, 2, 4, 8]) for _ in range(n)], "fl": rng.random() < 0.4,
+                    "ssder": rng.choice([None, None, "native_in", "arith"])}
+        fs_ = [maybe_scaled(rng, rand_poly(rng)) for _ in range(rng.choice([2, 3, 3]))]
+        if rng.random() < 0.5: fs_.append(fs_[0])
+        yield {"op": "hgrid", "m": m, "ps": ps, "og": og, "os": os, "fs": fs_, "one_profile": rng.random() < 0.3,
+               "via": rng.choice(["from_mask", "dataset", "dataset_nu", "dataset_pixgrid", "derived_arith", "derived_rewrap", "derived_native_slim"]),
+               "mder": rng.choice([None, None, "array", "grid"])}
+    # d4: sequences of single operations in ONE process on RELATED inputs (same shape and pixel count at other positions, other
+    #     origin / scales), on fresh objects or on shared ones: a module-level or object-level memo keyed too coarsely
+    for k in range(300 if big else 44):
+        m = rand_mask(rng, 4, 4, 8); n = len(unmasked(m)); ps, og = rand_geo(rng); ps2, og2 = rand_geo(rng)
+        variants = [(m, ps, og), (permuted_mask(rng, m), ps, og), (m, ps, og2), (permuted_mask(rng, m), ps2, og), (m, ps, og)]
+        rng.shuffle(variants); variants = variants[:rng.choice([3, 4])]
+        kind = rng.choice(["grid", "grid", "bin", "idx", "viafunc", "decor", "iter", "mixed"])
+        s0 = rng.choice([1, 2, 4]); ss = [s0] * n if rng.random() < 0.4 else [rng.choice([1, 2, 2, 4]) for _ in range(n)]
+        f = rand_poly(rng); via = rng.choice(["class", "util"])
+        thr, rel = rand_thr(rng); steps = rng.choice([[2, 4], [2, 4, 8], [2], [4, 8]])
+        arr = [fs(F(rng.randint(-64, 64), 8)) for _ in range(sum(s * s for s in ss))]
+        st = []
+        for (mm, pp, oo) in variants:
+            kk = rng.choice(["grid", "bin", "idx", "viafunc", "decor", "iter"]) if kind == "mixed" else kind
+            if kk == "grid": st.append({"op": "grid", "m": mm, "ps": pp, "og": oo, "ss": ss, "via": via, "int": False})
+            elif kk == "bin": st.append({"op": "bin", "m": mm, "ss": ss, "arr": arr, "via": via, "int": False})
+            elif kk == "idx":
+                st.append({"op": "slimsub", "m": mm, "ss": ss, "via": via, "int": False})
+                st.append({"op": "nativesub", "m": mm, "ss": ss, "via": via, "int": False})
+            elif kk == "viafunc": st.append({"op": "viafunc", "m": mm, "ps": pp, "og": oo, "ss": ss, "f": f, "via": "sampler"})
+            elif kk == "decor":
+                os = rng.choice([{"kind": "int", "s": s0}, {"kind": "map", "ss": ss}])
+                st.append({"op": "decor", "m": mm, "ps": pp, "og": oo, "os": os, "f": f, "via": rng.choice(["from_mask", "dataset"])})
+            else: st.append({"op": "iter", "m": mm, "ps": pp, "og": oo, "thr": thr, "rel": rel, "steps": steps, "f": f})
+        yield {"op": "seq", "share": rng.random() < 0.5, "steps": st}
+    # d5: ONE OverSampling configuration object (int / iterate) used for several masks and functions
+    for k in range(160 if big else 24):
+        ps, og = rand_geo(rng)
+        if rng.random() < 0.5: os = {"kind": "int", "s": rng.choice([2, 4])}
+        else:
+            thr, rel = rand_thr(rng); os = {"kind": "iter", "thr": thr, "rel": rel, "steps": rng.choice([[2, 4], [2, 4, 8], [4, 8]])}
+        m1 = rand_mask(rng, 4, 4, 8); m2 = rand_mask(rng, 4, 4, 8); m3 = permuted_mask(rng, m1)
+        st = [{"op": "decor", "m": mm, "ps": ps, "og": og, "os": os, "f": rand_poly(rng), "via": rng.choice(["from_mask", "dataset"])}
+              for mm in (m1, m2, m3, m1)]
+        if rng.random() < 0.3:      # a call that raises (empty schedule: IndexError) must leave nothing behind for the next call
+            bad = {"kind": "iter", "thr": "1/2", "rel": None, "steps": []}
+            st.insert(rng.choice([0, 1]), {"op": "decor", "m": m1, "ps": ps, "og": og, "os": bad, "f": {"absy": False, "absx": False, "terms": [[0, 0, "1"], [2, 0, "1"]]}, "via": "from_mask"})
+        yield {"op": "seq", "share": True, "steps": st}
+    # d6: the default configuration OverSamplingIterate() (fractional accuracy 0.9999, schedule [2, 4, 8, 16]) on tiny masks
+    for k in range(40 if big else 6):
+        m = rand_mask(rng, 2, 2, 3); ps, og = rand_geo(rng)
+        os = {"kind": "iter", "thr": fs(F(0.9999)), "rel": None, "steps": [2, 4, 8, 16], "default": True}
+        yield {"op": "hgrid", "m": m, "ps": ps, "og": og, "os": os, "fs": bowl_family(rng, m, ps, og, 2) + [rand_poly(rng, "affine")],
+               "via": rng.choice(["from_mask", "dataset"]), "one_profile": False}
     # (c) tolerance stream
     for _ in range(600 if big else 60):
         m = rand_mask(rng, 5, 5, 10); n = len(unmasked(m)); ps, og = rand_geo(rng, exact=False)
@@ -285,116 +489,236 @@ def is_exact(ps, ss):
 def qlist(a): return [frac(v) for v in np.asarray(a, dtype=float).ravel()]
 def qqlist(a): return [(frac(r[0]), frac(r[1])) for r in np.asarray(a, dtype=float).reshape(-1, 2)]
 
-def run_case(inp):
-    aa = import_aa()
+class Ctx:
+    """objects of one run_case.  share=True: two steps with the same construction parameters get the SAME Mask2D /
+    sub-size map / OverSamplerUniform / OverSamplerIterate / OverSamplingUniform|Iterate / GridsDataset / Grid2D object.
+    `watch`: the caller's inputs (mask, sub-size map, sub-values, grid values) must still hold what the caller put there;
+    `results`: everything returned so far must still hold what it held when it was returned."""
+    def __init__(self, share):
+        self.share = share; self.pool = {}; self.watches = []; self.results = []
+    def get(self, key, ctor, watch=None):
+        k = C_jd(key)
+        if self.share and k in self.pool: return self.pool[k]
+        o = ctor()
+        if self.share: self.pool[k] = o
+        if watch is not None: self.watches.append((k, o, watch))
+        return o
+    def returned(self, what, obj, conv):
+        if obj is not None and not isinstance(obj, (int, float)): self.results.append((what, obj, conv, conv(obj)))
+    def problems(self):
+        bad = []
+        for k, o, w in self.watches:
+            try: msg = w(o)
+            except Exception as e: msg = "unreadable: " + type(e).__name__
+            if msg: bad.append(f"input modified by a call: {msg} ({k[:80]})")
+        for what, obj, conv, snap in self.results:
+            try: ok = conv(obj) == snap
+            except Exception: ok = False
+            if not ok: bad.append(f"an earlier result ({what}) was changed by a later call")
+        return bad
+def C_jd(x):
+    import json
+    return json.dumps(x, sort_keys=True, default=str)
+
+_PROFILE = []
+def profile_cls():
+    if not _PROFILE:
+        from autoarray.operators.over_sampling.decorator import over_sample
+        class Profile:
+            centre = (0.0, 0.0)
+            def __init__(self, fn): self.fn = fn
+            @over_sample
+            def image_2d_from(obj, grid, *args, **kwargs):
+                g = np.array(grid)
+                return obj.fn(g[:, 0], g[:, 1])
+        _PROFILE.append(Profile)
+    return _PROFILE[0]
+
+class Env:
+    """geometry + object construction of one step (through the context's pool)"""
+    def __init__(self, inp, ctx):
+        self.aa = import_aa(); self.inp = inp; self.ctx = ctx
+        self.m = inp.get("m")
+        self.ps = tuple(float(F(p)) for p in inp["ps"]) if "ps" in inp else (1.0, 1.0)
+        self.og = tuple(float(F(p)) for p in inp["og"]) if "og" in inp else (0.0, 0.0)
+        self.psq = tuple(F(p) for p in self.ps); self.ogq = tuple(F(p) for p in self.og)      # the doubles actually passed, exactly
+        self.marr = np.array(self.m, dtype=bool) if self.m is not None else None            # for the util functions
+        self.mkey = ["mask", self.m, inp.get("ps"), inp.get("og"), inp.get("mder")]
+    def mask(self):
+        aa = self.aa; m = self.m; ps = self.ps; og = self.og; der = self.inp.get("mder")
+        def ctor():
+            mk = aa.Mask2D(mask=np.array(m, dtype=bool), pixel_scales=ps, origin=og)
+            n = len(unmasked(m))
+            # DERIVED mask objects: the mask carried by the result of arithmetic / by a grid built from the mask
+            if der == "array" and n: mk = (aa.Array2D(values=np.arange(1.0, n + 1.0), mask=mk) * 2.0).mask
+            elif der == "grid" and n: mk = aa.Grid2D.from_mask(mask=mk).mask
+            return mk
+        def watch(mk):
+            if not np.array_equal(np.array(mk), np.array(m, dtype=bool)): return "mask contents"
+            if tuple(mk.pixel_scales) != ps or tuple(mk.origin) != og: return "mask geometry"
+        return self.ctx.get(self.mkey, ctor, watch)
+    def ssmap(self, ss, fl=False, der=None, cur=None):
+        """the per-pixel sub-size map; `cur` = a list the caller keeps up to date with its own in-place edits"""
+        aa = self.aa; mask = self.mask(); m = self.m; cur = cur if cur is not None else list(ss)
+        def ctor():
+            a = np.array(ss, dtype=float if fl else int)
+            if der == "native_in":      # built from the user's 2-D (native) array
+                nat = np.zeros((len(m), len(m[0])), dtype=a.dtype)
+                for v, (y, x) in zip(a, unmasked(m)): nat[y, x] = v
+                return aa.Array2D(values=nat, mask=mask)
+            if der == "arith":          # the result of arithmetic on another map
+                return (aa.Array2D(values=a * 2, mask=mask) + 2.0) / 2.0 - 1.0
+            return aa.Array2D(values=a, mask=mask)
+        def watch(o):
+            if [int(v) for v in np.array(o)] != [int(v) for v in cur]: return "sub-size map"
+        return self.ctx.get(["ssmap", self.mkey, list(ss), fl, der], ctor, watch)
+    def sampler(self, ss, as_int, cur=None):
+        from autoarray.operators.over_sampling.uniform import OverSamplerUniform
+        fl = bool(self.inp.get("fl")); der = self.inp.get("ssder")
+        def ctor():
+            if as_int and ss: return OverSamplerUniform(mask=self.mask(), sub_size=int(ss[0]))
+            # float-typed maps are what OverSamplingUniform.from_radial_bins / from_adaptive_scheme build (repo fix edc1970, found by C06)
+            return OverSamplerUniform(mask=self.mask(), sub_size=self.ssmap(ss, fl, der, cur))
+        return self.ctx.get(["smp", self.mkey, list(ss), bool(as_int and ss), fl, der], ctor)
+    def os_obj(self, os):
+        from autoarray.operators.over_sampling.uniform import OverSamplingUniform
+        from autoarray.operators.over_sampling.iterate import OverSamplingIterate
+        fl = lambda t: None if t is None else float(F(t))
+        if os["kind"] == "int":
+            return self.ctx.get(["os", "int", os["s"]], lambda: OverSamplingUniform(sub_size=int(os["s"])))
+        if os["kind"] == "map":
+            return self.ctx.get(["os", "map", self.mkey, os["ss"], bool(os.get("fl")), os.get("ssder")],
+                                lambda: OverSamplingUniform(sub_size=self.ssmap(os["ss"], bool(os.get("fl")), os.get("ssder"))))
+        if os.get("default"):      # every argument left at its default: fractional accuracy 0.9999, schedule [2, 4, 8, 16]
+            return self.ctx.get(["os", "iter-default"], lambda: OverSamplingIterate())
+        return self.ctx.get(["os", "iter", os["thr"], os["rel"], os["steps"]],
+                            lambda: OverSamplingIterate(fractional_accuracy=fl(os["thr"]), relative_accuracy=fl(os["rel"]), sub_steps=list(os["steps"])))
+    def grid(self, os, via):
+        """the Grid2D a decorated method is called with"""
+        from autoarray.dataset.grids import GridsDataset
+        from autoarray.dataset.over_sampling import OverSamplingDataset
+        aa = self.aa
+        oskey = [os.get(k) for k in ("kind", "s", "ss", "fl", "ssder", "thr", "rel", "steps", "default")]
+        def ctor():
+            mask = self.mask(); osobj = self.os_obj(os)
+            if via.startswith("dataset"):
+                slot = {"dataset": "uniform", "dataset_nu": "non_uniform", "dataset_pixgrid": "pixelization"}[via]
+                ds = self.ctx.get(["ds", self.mkey, oskey, slot], lambda: GridsDataset(mask=mask, over_sampling=OverSamplingDataset(**{slot: osobj})))
+                return getattr(ds, slot)
+            g = aa.Grid2D.from_mask(mask=mask, over_sampling=osobj)
+            # DERIVED grids (new objects carrying the over sampling of the grid they come from)
+            if via == "derived_arith": g = (g + 0.0) * 1.0
+            elif via == "derived_rewrap": g = aa.Grid2D(values=g, mask=g.mask, over_sampling=g.over_sampling)
+            elif via == "derived_native_slim": g = g.native.slim
+            return g
+        g = self.ctx.get(["grid", self.mkey, oskey, via], ctor)
+        snap = np.array(g).copy()
+        self.ctx.watches.append(("grid values", g, lambda o: None if np.array_equal(np.array(o), snap) else "grid values"))
+        return g
+
+def classify_iter(f, env, os):
+    """(os with the doubles actually passed as exact rationals, all-zero?, in-band?)"""
+    fl = lambda t: None if t is None else float(F(t))
+    thrq = None if os["thr"] is None else F(fl(os["thr"])); relq = None if os["rel"] is None else F(fl(os["rel"]))
+    allzero, band = iter_class(f, env.m, env.psq, env.ogq, thrq, os["steps"])
+    return {"kind": "iter", "thr": thrq, "rel": relq, "steps": os["steps"]}, allzero, band
+
+def run_one(inp, ctx):
+    """one operation; returns dict(coq=<term of Model.C09.case> | None, out, finding, nontrivial, kind, skipped)"""
     from autoarray.operators.over_sampling import over_sample_util as U
-    from autoarray.operators.over_sampling.uniform import OverSamplerUniform, OverSamplingUniform
-    from autoarray.operators.over_sampling.iterate import OverSamplerIterate, OverSamplingIterate
-    from autoarray.operators.over_sampling.decorator import over_sample
+    from autoarray.operators.over_sampling.iterate import OverSamplerIterate
     from autoarray.dataset.grids import GridsDataset
     from autoarray.dataset.over_sampling import OverSamplingDataset
     from autoarray.structures.grids import grid_2d_util
-
-    class Profile:
-        centre = (0.0, 0.0)
-        def __init__(self, fn): self.fn = fn
-        @over_sample
-        def image_2d_from(obj, grid, *args, **kwargs):
-            g = np.array(grid)
-            return obj.fn(g[:, 0], g[:, 1])
-
-    op = inp["op"]; m = inp.get("m")
-    ps = tuple(float(F(p)) for p in inp["ps"]) if "ps" in inp else (1.0, 1.0)
-    og = tuple(float(F(p)) for p in inp["og"]) if "og" in inp else (0.0, 0.0)
-    psq = tuple(F(p) for p in ps); ogq = tuple(F(p) for p in og)      # the doubles actually passed, exactly
-    marr = np.array(m, dtype=bool) if m is not None else None
-    def mk_mask(): return aa.Mask2D(mask=marr, pixel_scales=ps, origin=og)
-    def sampler(ss, as_int):
-        mask = mk_mask()
-        if as_int and ss: return OverSamplerUniform(mask=mask, sub_size=int(ss[0]))
-        # float-typed maps are what OverSamplingUniform.from_radial_bins / from_adaptive_scheme build (repo fix edc1970, found by C06)
-        return OverSamplerUniform(mask=mask, sub_size=aa.Array2D(values=np.array(ss, dtype=float if inp.get("fl") else int), mask=mask))
+    env = Env(inp, ctx); aa = env.aa
+    Profile = profile_cls()
+    op = inp["op"]; m = env.m; ps, og, psq, ogq, marr = env.ps, env.og, env.psq, env.ogq, env.marr
     ss = inp.get("ss"); ssa = np.array(ss, dtype=int) if ss is not None else None
     out = None; coq = None; finding = None; nontrivial = True
     ex = is_exact(inp.get("ps", ["1", "1"]), ss or [])
+    def util_inputs_unchanged():
+        if not np.array_equal(marr, np.array(m, dtype=bool)): return "mask array passed to the util function"
+        if ssa is not None and list(ssa) != list(ss): return "sub_size array passed to the util function"
+    if inp.get("via") == "util": ctx.watches.append(("util", None, lambda o: util_inputs_unchanged()))
 
     if op == "grid":
         if inp["via"] == "util":
             g = U.grid_2d_slim_over_sampled_via_mask_from(mask_2d=marr, pixel_scales=ps, sub_size=ssa, origin=og)
         elif inp["via"] == "dataset_pix":
-            g = GridsDataset(mask=mk_mask(), over_sampling=OverSamplingDataset()).over_sampler_pixelization.over_sampled_grid
+            ds = ctx.get(["dspix", env.mkey], lambda: GridsDataset(mask=env.mask(), over_sampling=OverSamplingDataset()))
+            g = ds.over_sampler_pixelization.over_sampled_grid
         else:
-            g = sampler(ss, inp["int"]).over_sampled_grid
-        out = qqlist(g)
+            g = env.sampler(ss, inp["int"]).over_sampled_grid
+        out = qqlist(g); ctx.returned("over_sampled_grid", g, qqlist)
         coq = f"KGrid {cbool(ex)} {cmask(m)} {cqq(psq)} {cqq(ogq)} {cnats(ss)} {cqqs(out)}"
         nontrivial = len(ss) > 0
     elif op == "centres":
         if inp["via"] == "util": g = grid_2d_util.grid_2d_slim_via_mask_from(mask_2d=marr, pixel_scales=ps, origin=og)
-        else: g = aa.Grid2D.from_mask(mask=mk_mask())
-        out = qqlist(g)
+        else: g = aa.Grid2D.from_mask(mask=env.mask())
+        out = qqlist(g); ctx.returned("pixel centres", g, qqlist)
         coq = f"KCentres {cbool(ex)} {cmask(m)} {cqq(psq)} {cqq(ogq)} {cqqs(out)}"
         nontrivial = len(out) > 0
     elif op == "bin":
-        arr = np.array([float(F(v)) for v in inp["arr"]], dtype=float)
+        vals = [float(F(v)) for v in inp["arr"]]
+        arr = np.array(vals, dtype=float)
+        ctx.watches.append(("arr", arr, lambda o: None if list(o) == vals else "the array of sub-values passed to binned_array_2d_from"))
         if inp["via"] == "util": b = U.binned_array_2d_from(array_2d=arr, mask_2d=marr, sub_size=ssa)
-        else: b = sampler(ss, inp["int"]).binned_array_2d_from(array=arr)
-        out = qlist(b)
+        else: b = env.sampler(ss, inp["int"]).binned_array_2d_from(array=arr)
+        out = qlist(b); ctx.returned("binned array", b, qlist)
         coq = f"KBin {cbool(ex)} {cmask(m)} {cnats(ss)} {cqs([F(v) for v in inp['arr']])} {cqs(out)}"
         nontrivial = len(ss) > 0
     elif op == "slimsub":
         if inp["via"] == "util": r = U.slim_index_for_sub_slim_index_via_mask_2d_from(mask_2d=marr, sub_size=ssa)
-        else: r = sampler(ss, inp["int"]).slim_for_sub_slim
-        out = [int(v) for v in np.asarray(r)]
+        else: r = env.sampler(ss, inp["int"]).slim_for_sub_slim
+        conv = lambda r: [int(v) for v in np.asarray(r)]
+        out = conv(r); ctx.returned("slim_for_sub_slim", r, conv)
         coq = f"KSlimForSub {cmask(m)} {cnats(ss)} {cnats(out)}"
         nontrivial = len(ss) > 0
     elif op == "nativesub":
         if inp["via"] == "util": r = U.native_sub_index_for_slim_sub_index_2d_from(mask_2d=marr, sub_size=ssa)
-        else: r = sampler(ss, inp["int"]).sub_mask_native_for_sub_mask_slim
-        out = [(int(a), int(b)) for a, b in np.asarray(r).reshape(-1, 2)]
+        else: r = env.sampler(ss, inp["int"]).sub_mask_native_for_sub_mask_slim
+        conv = lambda r: [(int(a), int(b)) for a, b in np.asarray(r).reshape(-1, 2)]
+        out = conv(r); ctx.returned("sub_mask_native_for_sub_mask_slim", r, conv)
         coq = f"KNativeForSub {cmask(m)} {cnats(ss)} {clist([ctup([cnat(a), cnat(b)]) for a, b in out])}"
     elif op == "areas":
-        out = qlist(sampler(ss, False).sub_pixel_areas)
+        r = env.sampler(ss, False).sub_pixel_areas
+        out = qlist(r); ctx.returned("sub_pixel_areas", r, qlist)
         coq = f"KAreas {cbool(ex)} {cqq(psq)} {cnats(ss)} {cqs(out)}"
     elif op == "viafunc":
         fn = np_ufun(inp["f"])
         def func(*a): g = np.array(a[-1]); return fn(g[:, 0], g[:, 1])      # func(grid) if obj is None else func(obj, grid)
+        smp = env.sampler(ss, False)
         if inp.get("via") == "oversampled":       # decorator branch `isinstance(grid, Grid2DOverSampled)`: func on grid.grid, then binned
-            smp = sampler(ss, False)
             r = Profile(fn).image_2d_from(aa.Grid2DOverSampled(grid=smp.over_sampled_grid, over_sampler=smp, pixels_in_mask=len(ss)))
         else:
-            r = sampler(ss, False).array_via_func_from(func, None if len(ss) % 2 else object())
-        out = qlist(r)
+            r = smp.array_via_func_from(func, None if len(ss) % 2 else object())
+        out = qlist(r); ctx.returned("array_via_func_from", r, qlist)
         coq = f"KViaFunc {cbool(ex)} {cmask(m)} {cqq(psq)} {cqq(ogq)} {cnats(ss)} {cufun(inp['f'])} {cqs(out)}"
     elif op in ("decor", "iter"):
         f = inp["f"]; fn = np_ufun(f)
         os = inp["os"] if op == "decor" else {"kind": "iter", "thr": inp["thr"], "rel": inp["rel"], "steps": inp["steps"]}
         fl = lambda t: None if t is None else float(F(t))
         if os["kind"] == "iter":
-            thrq = None if os["thr"] is None else F(fl(os["thr"])); relq = None if os["rel"] is None else F(fl(os["rel"]))
-            allzero, band = iter_class(f, m, psq, ogq, thrq, os["steps"])
+            osq, allzero, band = classify_iter(f, env, os)
             if band:
                 SKIPPED_IN_BAND[0] += 1
-                return {"coq": None, "out": None, "py_ok": None, "nontrivial": False, "kind": op + "-skipped-in-band"}
+                return {"coq": None, "out": None, "nontrivial": False, "kind": op + "-skipped-in-band", "skipped": True}
             if allzero: finding = "level0-all-zero"
-            osq = {"kind": "iter", "thr": thrq, "rel": relq, "steps": os["steps"]}
             ex = is_exact(inp["ps"], os["steps"])
         else:
             osq = os
             ex = is_exact(inp["ps"], os["ss"] if os["kind"] == "map" else [os["s"]])
-        mask = mk_mask()
         if op == "iter":
             def func(obj, grid, *a, **k): g = np.array(grid); return fn(g[:, 0], g[:, 1])
-            res = call_res(lambda: OverSamplerIterate(mask=mask, fractional_accuracy=fl(os["thr"]), relative_accuracy=fl(os["rel"]),
-                                                       sub_steps=list(os["steps"])).array_via_func_from(func, None))
+            smp = ctx.get(["ismp", env.mkey, os["thr"], os["rel"], os["steps"]],
+                          lambda: OverSamplerIterate(mask=env.mask(), fractional_accuracy=fl(os["thr"]), relative_accuracy=fl(os["rel"]),
+                                                     sub_steps=list(os["steps"])))
+            res = call_res(lambda: smp.array_via_func_from(func, None))
         else:
-            if os["kind"] == "int": osobj = OverSamplingUniform(sub_size=int(os["s"]))
-            elif os["kind"] == "map": osobj = OverSamplingUniform(sub_size=aa.Array2D(values=np.array(os["ss"], dtype=float if os.get("fl") else int), mask=mask))
-            else: osobj = OverSamplingIterate(fractional_accuracy=fl(os["thr"]), relative_accuracy=fl(os["rel"]), sub_steps=list(os["steps"]))
-            if inp["via"] == "dataset": grid = GridsDataset(mask=mask, over_sampling=OverSamplingDataset(uniform=osobj)).uniform
-            elif inp["via"] == "dataset_nu": grid = GridsDataset(mask=mask, over_sampling=OverSamplingDataset(non_uniform=osobj)).non_uniform
-            elif inp["via"] == "dataset_pixgrid": grid = GridsDataset(mask=mask, over_sampling=OverSamplingDataset(pixelization=osobj)).pixelization
-            else: grid = aa.Grid2D.from_mask(mask=mask, over_sampling=osobj)
-            res = call_res(lambda: Profile(fn).image_2d_from(grid))
+            grid = env.grid(os, inp["via"])
+            prof = ctx.get(["profile", f], lambda: Profile(fn))        # shared sequences: ONE profile object, several grids
+            res = call_res(lambda: prof.image_2d_from(grid))
+        if res[0] == "ok": ctx.returned("decorated / iterated array", res[1], qlist)
         out = res if res[0] == "raise" else ("ok", qlist(res[1]))
         if op == "iter":
             coq = (f"KIter {cmask(m)} {cqq(psq)} {cqq(ogq)} {copt(osq['thr'], cq)} {copt(osq['rel'], cq)} {cnats(os['steps'])} "
@@ -403,7 +727,104 @@ def run_case(inp):
             coq = f"KDecor {cbool(ex)} {cmask(m)} {cqq(psq)} {cqq(ogq)} {cos_(osq)} {cufun(f)} {cres(out, cqs)}"
     else:
         raise ValueError(op)
-    r = {"coq": "(" + coq + ")", "out": jsonable(out), "py_ok": None, "nontrivial": nontrivial, "kind": op}
+    return {"coq": "(" + coq + ")", "out": jsonable(out), "finding": finding, "nontrivial": nontrivial, "kind": op, "skipped": False}
+
+def run_hsampler(inp, ctx):
+    """ONE OverSamplerUniform: cached reads, binning, functions, in-place edits of the sub-size map"""
+    env = Env(inp, ctx); aa = env.aa; Profile = profile_cls()
+    m = env.m; ss0 = list(inp["ss"]); cur = list(ss0)
+    smp = env.sampler(ss0, inp.get("int", False), cur)
+    allss = list(ss0) + [st["s"] for st in inp["steps"] if st["do"] == "edit"]
+    ex = is_exact(inp["ps"], allss)
+    terms = []; outs = []
+    for st in inp["steps"]:
+        do = st["do"]
+        if do == "grid":
+            r = smp.over_sampled_grid; o = qqlist(r); ctx.returned("over_sampled_grid", r, qqlist); terms.append(f"CGrid {cqqs(o)}")
+        elif do == "slim":
+            conv = lambda r: [int(v) for v in np.asarray(r)]
+            r = smp.slim_for_sub_slim; o = conv(r); ctx.returned("slim_for_sub_slim", r, conv); terms.append(f"CSlim {cnats(o)}")
+        elif do == "native":
+            conv = lambda r: [(int(a), int(b)) for a, b in np.asarray(r).reshape(-1, 2)]
+            r = smp.sub_mask_native_for_sub_mask_slim; o = conv(r); ctx.returned("sub_mask_native", r, conv)
+            terms.append(f"CNative {clist([ctup([cnat(a), cnat(b)]) for a, b in o])}")
+        elif do == "areas":
+            r = smp.sub_pixel_areas; o = qlist(r); ctx.returned("sub_pixel_areas", r, qlist); terms.append(f"CAreas {cqs(o)}")
+        elif do == "bin":
+            tot = sum(s * s for s in cur)
+            vals = [float(F(v)) for v in st["arr"]][:tot]
+            vals += [0.0] * (tot - len(vals))
+            arr = np.array(vals, dtype=float)
+            r = smp.binned_array_2d_from(array=arr); o = qlist(r); ctx.returned("binned array", r, qlist)
+            ctx.watches.append(("arr", arr, lambda o, vals=vals: None if list(o) == vals else "the array of sub-values passed to binned_array_2d_from"))
+            terms.append(f"CBin {cqs([F(v) for v in vals])} {cqs(o)}")
+        elif do == "via":
+            fn = np_ufun(st["f"])
+            def func(*a): g = np.array(a[-1]); return fn(g[:, 0], g[:, 1])
+            if st.get("via") == "oversampled":
+                r = Profile(fn).image_2d_from(aa.Grid2DOverSampled(grid=smp.over_sampled_grid, over_sampler=smp, pixels_in_mask=len(cur)))
+            else:
+                r = smp.array_via_func_from(func, None if st.get("obj") is None else object())
+            o = qlist(r); ctx.returned("array_via_func_from", r, qlist); terms.append(f"CVia {cufun(st['f'])} {cqs(o)}")
+        elif do == "edit":     # the user edits the map in place: sub_size[i] = s
+            smp.sub_size[st["i"]] = st["s"]; cur[st["i"]] = st["s"]; o = None
+            terms.append(f"CEdit {cnat(st['i'])} {cnat(st['s'])}")
+        else:
+            raise ValueError(do)
+        outs.append(jsonable(o))
+    coq = f"(HSampler {cbool(ex)} {cmask(m)} {cqq(env.psq)} {cqq(env.ogq)} {cnats(ss0)} {clist(['(' + t + ')' for t in terms])})"
+    return coq, outs
+
+def run_hgrid(inp, ctx):
+    """ONE Grid2D object: k @over_sample-decorated calls with k functions"""
+    env = Env(inp, ctx); Profile = profile_cls()
+    os = inp["os"]; m = env.m; finding = None
+    grid = env.grid(os, inp["via"])
+    if os["kind"] == "iter": ex = is_exact(inp["ps"], os["steps"])
+    else: ex = is_exact(inp["ps"], os["ss"] if os["kind"] == "map" else [os["s"]])
+    osq = os; calls = []; outs = []
+    shared_profile = Profile(None) if inp.get("one_profile") else None      # one profile object whose function changes
+    for f in inp["fs"]:
+        if os["kind"] == "iter":
+            osq, allzero, band = classify_iter(f, env, os)
+            if band: SKIPPED_IN_BAND[0] += 1; continue
+            if allzero: finding = "level0-all-zero"
+        fn = np_ufun(f)
+        if shared_profile is not None: shared_profile.fn = fn; prof = shared_profile
+        else: prof = Profile(fn)
+        res = call_res(lambda: prof.image_2d_from(grid))
+        if res[0] == "ok": ctx.returned("decorated array", res[1], qlist)
+        out = res if res[0] == "raise" else ("ok", qlist(res[1]))
+        calls.append(ctup([cufun(f), cres(out, cqs)])); outs.append(jsonable(out))
+    coq = f"(HGrid {cbool(ex)} {cmask(m)} {cqq(env.psq)} {cqq(env.ogq)} {cos_(osq)} {clist(calls)})"
+    return coq, outs, finding, len(calls)
+
+def run_case(inp):
+    import_aa()
+    op = inp["op"]
+    ctx = Ctx(share=bool(inp.get("share")))
+    finding = None; nontrivial = True; kind = op
+    if op == "seq":
+        terms = []; outs = []
+        for st in inp["steps"]:
+            r = run_one(st, ctx)
+            if r["skipped"]: continue
+            terms.append(r["coq"]); outs.append(r["out"]); finding = finding or r["finding"]
+        if not terms: return {"coq": None, "out": None, "py_ok": None, "nontrivial": False, "kind": "seq-skipped-in-band"}
+        coq = f"(HSeq {clist(terms)})"; out = outs
+        kind = "seq-shared" if inp.get("share") else "seq-fresh"
+    elif op == "hsampler":
+        coq, out = run_hsampler(inp, ctx)
+    elif op == "hgrid":
+        coq, out, finding, n = run_hgrid(inp, ctx)
+        if n == 0: return {"coq": None, "out": None, "py_ok": None, "nontrivial": False, "kind": "hgrid-skipped-in-band"}
+    else:
+        r = run_one(inp, ctx)
+        if r["skipped"]: return {"coq": None, "out": None, "py_ok": None, "nontrivial": False, "kind": r["kind"]}
+        coq = f"(HOne {r['coq']})"; out = r["out"]; finding = r["finding"]; nontrivial = r["nontrivial"]
+    bad = ctx.problems()
+    r = {"coq": coq, "out": out, "py_ok": False if bad else None, "nontrivial": nontrivial, "kind": kind}
+    if bad: r["detail"] = "; ".join(bad[:4])
     if finding: r["finding"] = finding
     return r
 
